@@ -564,6 +564,13 @@ pub(crate) fn convert_element(node: SvgNode, state: &State, cache: &mut Cache, p
         return;
     }
 
+    if tag_name == EId::Svg && node.parent_element().is_some() {
+        // Like `use`, a nested `svg` creates its own group.
+        // Creating one here as well would apply its opacity, filter, etc. twice.
+        super::use_node::convert_svg(node, state, cache, parent);
+        return;
+    }
+
     if let Some(g) = convert_group(node, state, false, cache, parent, &|cache, g| {
         convert_element_impl(tag_name, node, state, cache, g);
     }) {
